@@ -3,7 +3,6 @@ package main
 // P07-chunks, P12-fill, P13-entrytypes, P09-notation: small table/shape rules added for depth.
 
 import (
-	"os"
 	"fmt"
 	"go/token"
 	"go/types"
@@ -824,11 +823,6 @@ func ruleP01Delims(p *Prog, r *Report) {
 			}
 		})
 		sort.SliceStable(items, func(i, j int) bool { return items[i].pos < items[j].pos })
-		if os.Getenv("KLOGSA_DEBUG") != "" {
-			for _, it := range items {
-				fmt.Fprintf(os.Stderr, "DELIMS %s item pos=%s site=%v sub=%v\n", fnName(f), p.pos(it.pos), it.st != nil, it.sub)
-			}
-		}
 		for _, it := range items {
 			if it.st != nil {
 				sites = append(sites, *it.st)
